@@ -38,6 +38,8 @@ class Fam:
             n, v = self.val(64, 'BigUnsigned'); self.pos.append(('limit', n)); calls.append(['limit', v['v']])
         return {'k': 'select', 'calls': calls}
 
+EXTRA_TOGGLES = ['ulimit', 'utype', 'ordnulls', 'ordfunc', 'frame']
+DIALECT_TOGGLES = ['hint', 'sample', 'distinct_on', 'lock', 'namedwin', 'search', 'cycle', 'materialized', 'upjoin', 'dokeys', 'donothing']
 SELECT_TOGGLES = ['distinct', 'valitem', 'case', 'cust', 'from', 'arity', 'vrows', 'join', 'w1', 'w2', 'insub', 'group', 'having', 'union', 'order', 'limit', 'offset', 'window', 'cte']
 
 def select_family(f):
@@ -45,6 +47,7 @@ def select_family(f):
     if f.opt('cte'):
         calls.append(['with_cte', {'ctes': [{'name': 'cte', 'query': f.small_select('ctesrc')}]}])
     if f.opt('distinct'): calls.append(['distinct'])
+    elif f.b == 'postgres' and f.opt('distinct_on'): calls.append(['distinct_on', [C('d1'), C('d2')]])
     calls.append(['column', C('c')])
     if f.opt('valitem'):
         n, v = f.val(); calls.append(['expr_as', ['val', v], 'k_%d' % n])
@@ -68,6 +71,8 @@ def select_family(f):
             rows.append(row)
         f.pos.append(('values', tags))
         calls.append(['from_values', rows, 'vl'])
+    if fk == 0 and f.b == 'mysql' and f.opt('hint'): calls.append(['index_hint', 'force', 'idx1', 'Join']); calls.append(['index_hint', 'ignore', 'idx2', 'All'])
+    if fk == 0 and f.b == 'postgres' and f.opt('sample'): calls.append(['table_sample', 'SYSTEM', 0x4045000000000000, None])
     if f.opt('join'): calls.append(['join', 'LeftJoin', ['t', 'j'], ['all', False, [f.cmp()]]])
     if f.opt('w1'): calls.append(['and_where', f.cmp()])
     if f.opt('w2'): calls.append(['cond_where', ['any', False, [f.cmp(), f.cmp()]]])
@@ -75,25 +80,41 @@ def select_family(f):
     if f.opt('group'):
         calls.append(['group_by', C('g')])
         if f.opt('having'): calls.append(['and_having', f.cmp()])
-    if f.opt('union'): calls.append(['union', 'All', f.small_select('u', with_limit=True)])
-    ok = f.pick('order', 5)
+    if f.opt('union'):
+        ut = ['All', 'Distinct', 'Intersect', 'Except'][f.pick('utype', 4)]
+        calls.append(['union', ut, f.small_select('u', with_limit=('ulimit' not in f.on) or f.opt('ulimit'))])
+    ok = f.pick('order', 6)
     if ok == 1: calls.append(['order_by', C('o'), 'Asc'])
     elif ok == 2: calls.append(['order_field', C('o'), [V('Int', 3), V('String', 'x')]])       # inlined by design: must not be bound
+    elif ok == 5: calls.append(['order_field_nulls', C('o'), [V('Int', 3), V('Int', 9)], 'First'])
     elif ok == 4:
         # ORDER BY FIELD on an expression that binds a value: CASE WHEN <expr>=v1 .. WHEN <expr>=v2 .. repeats the expression once per field value
         calls.append(['order_field_expr', f.cmp(), [V('Int', 4), V('Int', 5), V('Int', 1)]])
         f.dup_ok.add(f.n)
     elif ok == 3:
-        calls.append(['order_by_expr_nulls', f.cmp(), 'Desc', 'Last'])
+        direction, nl = [('Desc', 'Last'), ('Asc', 'Last'), ('Desc', 'First'), ('Asc', 'First')][f.pick('ordnulls', 4)]
+        if f.opt('ordfunc'):
+            n, v = f.val(); ex = ['func', 'if_null', [C('k_%d' % n), ['val', v]]]
+        else: ex = f.cmp()
+        calls.append(['order_by_expr_nulls', ex, direction, nl])
         if f.b == 'mysql': f.dup_ok.add(f.n)          # `expr IS NULL ASC, expr DESC`: the expression (and its value) is written twice
     if f.opt('window'):
         n = f.n = f.n + 1
         t = z3.BitVec('k%d' % n, 32); f.tags[n] = t; f.pos.append(('frame', n))
-        calls.append(['expr_window_as', ['func', 'sum', [C('wv')]], {'calls': [['partition_by', C('wp')], ['frame', 'Rows', ['Preceding', t], 'CurrentRow']]}, 'wa'])
+        fk2 = f.pick('frame', 3)
+        if fk2 == 0: fr = ['frame', 'Rows', ['Preceding', t], 'CurrentRow']
+        else:
+            del f.tags[n]; f.pos.pop(); f.n -= 1
+            fr = ['frame', 'Rows', 'UnboundedPreceding', 'CurrentRow'] if fk2 == 1 else ['frame', 'Range', 'UnboundedPreceding', None]
+        calls.append(['expr_window_as', ['func', 'sum', [C('wv')]], {'calls': [['partition_by', C('wp')], ['order_by', C('wo'), 'Asc'], fr]}, 'wa'])
+    if f.opt('namedwin'):
+        calls.append(['expr_window_name', ['func', 'max', [C('nv')]], 'nw'])
+        calls.append(['window', 'nw', {'calls': [['partition_by', C('np')], ['order_by', C('no'), 'Desc']]}])
     if f.opt('limit'):
         n, v = f.val(64, 'BigUnsigned'); f.pos.append(('limit', n)); calls.append(['limit', v['v']])
     if f.opt('offset'):
         n, v = f.val(64, 'BigUnsigned'); f.pos.append(('offset', n)); calls.append(['offset', v['v']])
+    if f.b != 'sqlite' and f.opt('lock'): calls.append(['lock', 'Update'])
     return {'k': 'select', 'calls': calls}
 
 INSERT_TOGGLES = ['rows', 'cols', 'select', 'conflict', 'cwhere', 'returning', 'cte']
@@ -114,9 +135,11 @@ def insert_family(f):
                 n, v = f.val(); tags.append(n); row.append(['val', v])
             calls.append(['values_panic', row])
         f.pos.append(('values', tags))
-    if f.opt('conflict'):
+    if f.opt('donothing'):
+        calls.append(['on_conflict', {'target': ['cols', [cols[0]]], 'calls': [['do_nothing_on', [cols[0]]] if f.opt('dokeys') else ['do_nothing']]}])
+    elif f.opt('conflict'):
         n, v = f.val()
-        oc = {'target': ['cols', [cols[0]]], 'calls': [['value', 'k_%d' % n, ['val', v]]]}
+        oc = {'target': ['cols', [cols[0]]], 'calls': [['update_column', cols[-1]], ['value', 'k_%d' % n, ['val', v]]]}
         if f.b != 'mysql' and f.opt('cwhere'): oc['calls'].append(['action_and_where', f.cmp()])
         calls.append(['on_conflict', oc])
     if f.b != 'mysql' and f.opt('returning'): calls.append(['returning_exprs', [f.cmp()]])
@@ -130,6 +153,7 @@ def update_family(f):
     if f.opt('set2'):
         n, v = f.val(); calls.append(['value', 'k_%d' % n, ['bin', 'Add', C('z'), ['val', v]]])
     if f.b != 'mysql' and f.opt('from'): calls.append(['from', ['t', 'o']])
+    if f.b == 'mysql' and f.opt('upjoin'): calls.append(['from', ['t', 'o']])
     if f.opt('where'): calls.append(['and_where', f.cmp()])
     if f.b != 'postgres':
         if f.opt('order'): calls.append(['order_by', C('o'), 'Asc'])
@@ -157,6 +181,7 @@ def with_family(f):
     c1 = f.small_select('a')
     if f.opt('nested'): c1['calls'].insert(0, ['with_cte', {'ctes': [{'name': 'deep', 'query': f.small_select('d')}]}])
     ctes = [{'name': 'cte1', 'query': c1}]
+    if f.b != 'mysql' and f.opt('materialized'): ctes[0]['materialized'] = True
     if f.opt('cte2'): ctes.append({'name': 'cte2', 'cols': ['x'], 'query': f.small_select('b')})
     kind = f.pick('kind', 3)
     if kind == 0:
@@ -168,7 +193,11 @@ def with_family(f):
         q = {'k': 'update', 'calls': [['table', ['t', 't']], ['value', 'k_%d' % n, ['val', v]], ['and_where', ['m', 'in_subquery', C('id'), {'k': 'select', 'calls': [['column', C('s')], ['from', ['t', 'cte1']]]}]]]}
     else:
         q = {'k': 'delete', 'calls': [['from_table', ['t', 't']], ['and_where', f.cmp()]]}
-    return {'k': 'with', 'with': {'ctes': ctes, 'recursive': bool(f.opt('recursive'))}, 'query': q}
+    w = {'ctes': ctes, 'recursive': bool(f.opt('recursive'))}
+    if f.b == 'postgres' and w['recursive']:
+        if f.opt('search'): w['search'] = {'order': 'BREADTH', 'expr': C('sid'), 'alias': 'ordcol'}
+        if f.opt('cycle'): w['cycle'] = {'expr': C('cid'), 'set': 'is_cycle', 'using': 'path'}
+    return {'k': 'with', 'with': w, 'query': q}
 
 FAMILIES = {
     # name: (generator, toggle groups for the quick tier, toggles of the thorough tier)
@@ -220,6 +249,8 @@ def marker_of(text, start, end):
     m = re.match(r'( END\))? AS [`"]k_(\d+)[`"]', after)
     if m: return ('tag', int(m.group(2)))
     m = re.search(r'[`"]?k_(\d+)[`"]? = [`"]z[`"] \+ $', before)
+    if m: return ('tag', int(m.group(1)))
+    m = re.search(r'(?:IFNULL|COALESCE)\([`"]k_(\d+)[`"], $', before)
     if m: return ('tag', int(m.group(1)))
     if before.endswith('LIMIT '): return ('limit',)
     if before.endswith('OFFSET '): return ('offset',)
